@@ -54,6 +54,19 @@ fn sink_query(_d: Deps, _e: Env, _m: Empty) -> StdResult<Binary> {
     to_json_binary(&Empty {})
 }
 
+/// The real `execute`, behind the harness' call budget (stands for gas; see `common::CALL_BUDGET`).
+fn ms_execute_budgeted(
+    deps: cosmwasm_std::DepsMut,
+    env: cosmwasm_std::Env,
+    info: cosmwasm_std::MessageInfo,
+    msg: ExecuteMsg,
+) -> Result<cosmwasm_std::Response, cw3_fixed_multisig::ContractError> {
+    if call_budget_exhausted() {
+        return Err(cosmwasm_std::StdError::generic_err("harness: call budget exhausted (out of gas)").into());
+    }
+    cw3_fixed_multisig::contract::execute(deps, env, info, msg)
+}
+
 pub struct FixedScen {
     app: App,
     pool: Vec<Addr>,
@@ -157,7 +170,7 @@ impl FixedScen {
         self.set_block();
         let sink_id = self.app.store_code(Box::new(ContractWrapper::new(sink_exec, sink_inst, sink_query)));
         let ms_id = self.app.store_code(Box::new(ContractWrapper::new(
-            cw3_fixed_multisig::contract::execute,
+            ms_execute_budgeted,
             cw3_fixed_multisig::contract::instantiate,
             cw3_fixed_multisig::contract::query,
         )));
@@ -811,6 +824,7 @@ impl Scenario for FixedScen {
     }
 
     fn apply(&mut self, op: &str) -> Vec<String> {
+        reset_call_budget();
         let a = Args::parse(op);
         let kind = a.pos.first().map(|s| s.as_str()).unwrap_or("");
         match kind {
